@@ -313,6 +313,11 @@ func judge(c Case, w *vkit.W) {
 		}
 	}
 	otherCalls(c, w, limit)
+	// the limit is the program's setting: no library call changes it
+	if cur := *limitPtr(c.Pkg); cur != limit {
+		w.Fail(c, "limit-not-enforced", fmt.Sprintf("%s.MaxInputLength was %d when the calls of this case began and is %d afterwards: the library changed the configured limit itself", c.Pkg, limit, cur))
+		*limitPtr(c.Pkg) = limit
+	}
 }
 
 // ---- allocation guard (single-threaded tiers only) ---------------------------------------------------------------------
@@ -579,6 +584,34 @@ func TestCheck(t *testing.T) {
 						_ = json.Unmarshal(append(append([]byte(`{"S":`), in...), '}'), &struct{ S size.Size }{})
 					})
 					w.EvalRandom(vkit.Hash64("B7", string(in), strconv.Itoa(rw)), true)
+				}
+			}
+		})
+	})
+
+	// Phase B8: every valid text followed or preceded by a token of a neighbouring notation (JSON literals, separators, a second value).
+	r.Phase("B8: every valid text with a JSON literal, separator or second value behind / in front of it x every rule word, default and disabled limits", func() {
+		tokens := []string{" null", "null", " true", " false", " 0", " -1", " []", " {}", " [null]", ` ""`, ` "x"`, " nil", ",", ";", ":", "\n2", "\x00", " \x00", "//", "/**/", "#", " NaN", " 1e999", "\ufeff", " null null"}
+		r.Parallel(int64(len(pkgs)), 1, func(w *vkit.W, plo, phi int64) {
+			for _, pkg := range pkgs[plo:phi] {
+				for _, lim := range []int{-1, 0} {
+					restore := setLimit(pkg, lim)
+					nRules := 4
+					if pkg == "size" {
+						nRules = 16
+					}
+					for _, v := range valid[pkg] {
+						for _, tok := range tokens {
+							for _, text := range []string{v + tok, strings.TrimSpace(tok) + " " + v, v + tok + tok} {
+								for rule := 0; rule < nRules; rule++ {
+									c := Case{Pkg: pkg, A: vkit.B(text), B: vkit.B(v), Rule: rule, Limit: lim}
+									judge(c, w)
+									w.EvalRandom(vkit.Hash64("B8", pkg, text, strconv.Itoa(rule), strconv.Itoa(lim)), true)
+								}
+							}
+						}
+					}
+					restore()
 				}
 			}
 		})
